@@ -2,7 +2,7 @@
 //! source (`ksrc::Src`), so the very same body can be driven by a symbolic byte buffer.  A failed
 //! `assume` leaves through `verif_exit(1)` (= verdict "outside the precondition"), a failed `assert!`
 //! is a panic (= a bad path the solver must show unreachable), running out of input bytes or asking for
-//! a float is verdict 21 / 22 (proof-structure codes: UNDECIDED, never a violation).
+//! a float draws its bit pattern from the buffer; verdict 21 (proof-structure code: UNDECIDED, never a violation).
 //! `verif_exit` is modelled by irsym as "the kernel returns `code`"; natively it ends the process with
 //! status 64 + code, which the native runner maps back to the same verdict.
 use crate::ksrc::Src;
@@ -64,11 +64,13 @@ impl<'a, const N: usize> Src for BufSrc<'a, N> {
     fn bool(&mut self) -> bool {
         self.next(1) & 1 != 0
     }
+    #[inline(always)]
     fn f32(&mut self) -> f32 {
-        verif_exit(22)
+        f32::from_bits(self.next(4) as u32)
     }
+    #[inline(always)]
     fn f64(&mut self) -> f64 {
-        verif_exit(22)
+        f64::from_bits(self.next(8))
     }
     #[inline(always)]
     fn assume(&mut self, c: bool) {
@@ -119,3 +121,10 @@ hkernel!(k_h_stack_guard, crate::proofs::bits::stack_guard, 96);
 hkernel!(k_h_queue_guard, crate::proofs::bits::queue_guard, 96);
 hkernel!(k_h_stack_lifo_script, crate::proofs::bits::stack_lifo_script, 128);
 hkernel!(k_h_queue_fifo, crate::proofs::bits::queue_fifo, 128);
+hkernel!(k_h_huffman_float_n2, crate::proofs::bits::huffman_float_n2, 32);
+hkernel!(k_h_huffman_float_n3, crate::proofs::bits::huffman_float_n3, 32);
+hkernel!(k_h_fast_f32_n3_p4_norm1, crate::proofs::models::fast_f32_n3_p4_norm1, 64);
+hkernel!(k_h_fast_f32_n2_p3_nonorm, crate::proofs::models::fast_f32_n2_p3_nonorm, 64);
+hkernel!(k_h_lazy_vs_eager_f32_n3_p4, crate::proofs::models::lazy_vs_eager_f32_n3_p4, 64);
+hkernel!(k_h_lazy_f32_n3_p4_valid, crate::proofs::models::lazy_f32_n3_p4_valid, 64);
+hkernel!(k_h_fast_f32_n3_p24_u32, crate::proofs::models::fast_f32_n3_p24_u32, 64);
